@@ -1,7 +1,9 @@
 //! C22 (build with `--features pre`): preemption by the monitor thread, wall clock.
 //! body: `<threads> ; prog ; prog ; …`  every thread runs the same coroutines on its own Scheduler.
 //!   prog steps (comma separated): B<ms> busy loop in Running state | Z<ms> busy loop in Syscall state |
-//!   Y plain yield | R (finish; the value is the checksum of the work done)
+//!   Y plain yield | R (finish; the value is the checksum of the work done) |
+//!   N<ms> nested: resume an inner coroutine that busy-loops (it is preempted back into this one), then a
+//!   busy loop of ms in this (outer) coroutine — which must be preempted as well
 //! out per thread (joined by ` / `): per coroutine `<k>:v=<checksum intact>,pz=<preemptions inside Z sections>,pbl=<every B section of
 //!   at least 45 ms was preempted at least once>`, then `order=<completion order>`; a coroutine that never finished is missing
 use crate::rng::Rng;
@@ -24,6 +26,7 @@ pub fn gen(r: &mut Rng, thorough: bool) -> String {
         let k = r.range(0, 3);
         let mut steps = Vec::new();
         for _ in 0..k {
+            if threads == 1 && r.chance(1, 6) { steps.push(format!("N{}", *r.pick(&[45u64, 60]))); continue; }
             steps.push(match r.below(6) { 0 | 1 => format!("B{}", *r.pick(&[2u64, 30, 45, 60])), 2 | 3 => format!("Z{}", *r.pick(&[5u64, 30, 50])), _ => "Y".to_string() });
         }
         steps.push("R".into());
@@ -79,6 +82,13 @@ fn run_thread(progs: Vec<String>) -> String {
     for (k, p) in progs.iter().enumerate() {
         // (kind, ms) pairs, parsed outside the body
         let steps: Vec<(u8, u64)> = p.split(',').map(|st| { let (h, rest) = st.split_at(1); (h.as_bytes()[0], rest.parse().unwrap_or(0)) }).collect();
+        // inner coroutines for the nested steps are built here, outside any preemptible code (and never freed)
+        let mut inners: Vec<open_coroutine_core::coroutine::Coroutine<'static, (), (), Option<usize>>> = steps.iter().filter(|s| s.0 == b'N').map(|&(_, ms)| {
+            open_coroutine_core::coroutine::Coroutine::new(None, move |_s: &open_coroutine_core::coroutine::suspender::Suspender<(), ()>, ()| {
+                let _ = work(3, Instant::now() + Duration::from_millis(ms)); None
+            }, Some(128 * 1024), None).expect("inner")
+        }).collect();
+        inners.reverse();
         let co = SchedulableCoroutine::new(Some(format!("pre{k}-{:?}", std::thread::current().id())), move |s, ()| {
             let (mut acc, mut rounds, mut pz, mut pbl) = (7u64, 0u64, 0u64, true);
             let mark: Mark = Rc::new(Cell::new((0, 0)));
@@ -94,6 +104,16 @@ fn run_thread(progs: Vec<String>) -> String {
                         acc = a; rounds += r;
                         if h == b'Z' { pz += hits; let _ = SchedulableCoroutine::current().unwrap().running(); }
                         else if ms >= 45 && hits == 0 { pbl = false; }
+                    }
+                    b'N' => {
+                        // the inner one runs until it is preempted (or done); then this coroutine goes on computing
+                        if let Some(mut inner) = inners.pop() { let _ = inner.resume(); std::mem::forget(inner); }
+                        mark.set((1, 0));
+                        let (a, r) = work(acc, Instant::now() + Duration::from_millis(ms));
+                        let hits = mark.get().1;
+                        mark.set((0, 0));
+                        acc = a; rounds += r;
+                        if hits == 0 { pbl = false; }
                     }
                     b'Y' => { s.suspend(); }
                     _ => {}
